@@ -167,6 +167,9 @@ func intRange(b *types.Basic) *interval {
 	return nil
 }
 
+// bvMode: integers are bit-vectors of their Go width (set while verifying a "mode bv" function).
+var bvMode bool
+
 func scalarSort(t types.Type) (string, *interval, bool) {
 	if isOpaque(t) {
 		return SInt, nil, true
@@ -177,6 +180,9 @@ func scalarSort(t types.Type) (string, *interval, bool) {
 		case u.Info()&types.IsBoolean != 0:
 			return SBool, nil, true
 		case u.Info()&types.IsInteger != 0:
+			if bvMode {
+				return bvSort(bitsOf(t)), nil, true
+			}
 			return SInt, intRange(u), true
 		case u.Info()&types.IsString != 0:
 			return SInt, nil, true
@@ -338,6 +344,9 @@ func zeroVal(t types.Type) Value {
 			return tFalse
 		case SInt:
 			return Int(0)
+		}
+		if strings.HasPrefix(l.sort, "(_ BitVec") {
+			return bvConst(big.NewInt(0), bvWidth(l.sort))
 		}
 		if strings.HasPrefix(l.sort, "(Array") {
 			es := elemSort(l.sort)
